@@ -60,7 +60,13 @@ FLOORS = {
     "quick": {"evaluations": 6000, "distinct": 3000,
               "counters": {"twin_invocations": 3000, "marked_renders": 3000,
                            "security_errors": 3000, "async_cases": 800,
-                           "override_env_cases": 1200}},
+                           "override_env_cases": 1200,
+                           "history_cases": 900, "history_allowed_calls": 800,
+                           "history_security_errors": 800,
+                           "history_verdict_flips_allow_to_block": 400,
+                           "history_verdict_flips_block_to_allow": 240,
+                           "history_one_render_steps": 220, "history_async_cases": 200,
+                           "history_override_env_cases": 230}},
     "thorough": {"evaluations": 60000, "distinct": 30000,
                  "counters": {"twin_invocations": 30000, "marked_renders": 30000,
                               "security_errors": 30000, "async_cases": 8000,
